@@ -746,8 +746,9 @@ func (x *Exec) loop(ls *loopSpec, st *State) *Flow {
 					lbl = fmt.Sprintf("hint%d", hi+1)
 				}
 				ce := fx.clauseEv(back, ls.node.End()-1, nil)
+				ce.beforeEv = fx.clauseEv(head, ls.bodyPos, nil)
 				t := ce.boolOf(ce.ev(h.Expr), h.Expr)
-				fx.oblige("hint", lname+".hint."+lbl+hsuffix, ls.node.Pos(), back.pc, t, "proof hint: "+h.Text)
+				fx.obligeSplit("hint", lname+".hint."+lbl+hsuffix, ls.node.Pos(), back.pc, t, "proof hint: "+h.Text)
 				fx.assume(back.pc, t)
 			}
 		}
@@ -777,8 +778,9 @@ func (x *Exec) loop(ls *loopSpec, st *State) *Flow {
 					lbl = fmt.Sprintf("hint%d", hi+1)
 				}
 				ce := fx.clauseEv(back, ls.bodyPos, nil)
+				ce.beforeEv = fx.clauseEv(head, ls.bodyPos, nil)
 				t := ce.boolOf(ce.ev(h.Expr), h.Expr)
-				fx.oblige("hint", lname+".hint."+lbl+suffix, ls.node.Pos(), back.pc, t, "proof hint: "+h.Text)
+				fx.obligeSplit("hint", lname+".hint."+lbl+suffix, ls.node.Pos(), back.pc, t, "proof hint: "+h.Text)
 				fx.assume(back.pc, t)
 			}
 		}
@@ -993,6 +995,14 @@ func (fx *FuncCtx) clauseEv(st *State, pos token.Pos, results []Val) *Ev {
 			if o, ok := fx.params[name]; ok {
 				v, ok := entry.env[o]
 				return v, ok
+			}
+			// a result named inside old(...) is the result itself (a value, not a location)
+			if results != nil {
+				for i, rn := range fx.resNames {
+					if rn == name && i < len(results) {
+						return results[i], true
+					}
+				}
 			}
 			return nil, false
 		}}
